@@ -200,8 +200,9 @@ macro_rules! field_impl {
             fn neg(self) -> Self::Output {
                 // Invariant uphold by the construction
                 // 0 <= self < PRIME
-                // therefore it is safe to avoid the modulo operation
-                Self(Self::PRIME - self.0)
+                // so `PRIME - self` is in (0, PRIME]; reduce so that -0 is 0, not PRIME
+                let c = <$op_store>::from;
+                Self::modulo_prime_base(c(Self::PRIME) - c(self.0))
             }
         }
 
